@@ -223,7 +223,7 @@ DynamicBitset& DynamicBitset::reset() noexcept( true)
 DynamicBitset& DynamicBitset::reset( size_t pos)
 {
 
-   if (pos > mData.size())
+   if (pos >= mData.size())
       mData.resize( (pos + 1) * 1.5);
 
    mData[ pos] = false;
@@ -255,7 +255,7 @@ DynamicBitset& DynamicBitset::flip() noexcept( true)
 DynamicBitset& DynamicBitset::flip( size_t pos)
 {
 
-   if (pos > mData.size())
+   if (pos >= mData.size())
       mData.resize( (pos + 1) * 1.5);
 
    mData[ pos] = !mData[ pos];
@@ -350,7 +350,7 @@ bool DynamicBitset::operator ==( const DynamicBitset& other) const noexcept( tru
 bool DynamicBitset::operator []( size_t pos) const noexcept( false)
 {
 
-   if (pos > mData.size())
+   if (pos >= mData.size())
       throw std::out_of_range( "position is behind end of vector");
 
    return mData[ pos];
@@ -368,7 +368,7 @@ bool DynamicBitset::operator []( size_t pos) const noexcept( false)
 DynamicBitset::reference DynamicBitset::operator []( size_t pos) noexcept( true)
 {
 
-   if (pos > mData.size())
+   if (pos >= mData.size())
       mData.resize( (pos + 1) * 1.5);
 
    return mData[ pos];
